@@ -18,20 +18,20 @@ import (
 
 // Ev is one trace event. Dir: "send" (shim -> core), "recv" (core -> shim), "act" (harness action).
 type Ev struct {
-	T      int64  `json:"t"`
-	Dir    string `json:"dir"`
-	Kind   string `json:"kind"`
-	App    string `json:"app,omitempty"`
-	Key    string `json:"key,omitempty"`
-	Node   string `json:"node,omitempty"`
-	Term   string `json:"term,omitempty"`
-	State  string `json:"state,omitempty"`
-	Reason string `json:"reason,omitempty"`
-	Res    res.R  `json:"res,omitempty"`
-	Flag   bool   `json:"flag,omitempty"`
-	TG     string `json:"tg,omitempty"`
+	T       int64  `json:"t"`
+	Dir     string `json:"dir"`
+	Kind    string `json:"kind"`
+	App     string `json:"app,omitempty"`
+	Key     string `json:"key,omitempty"`
+	Node    string `json:"node,omitempty"`
+	Term    string `json:"term,omitempty"`
+	State   string `json:"state,omitempty"`
+	Reason  string `json:"reason,omitempty"`
+	Res     res.R  `json:"res,omitempty"`
+	Flag    bool   `json:"flag,omitempty"`
+	TG      string `json:"tg,omitempty"`
 	ReqNode string `json:"reqNode,omitempty"`
-	Prio   int32  `json:"prio,omitempty"`
+	Prio    int32  `json:"prio,omitempty"`
 }
 
 func (e *Ev) String() string {
@@ -59,23 +59,23 @@ type PredRec struct {
 }
 
 type Shim struct {
-	RMID      string
-	Partition string // normalised name
-	mu        sync.Mutex
-	clock     atomic.Int64
-	trace     []*Ev
-	confirms  []Confirm
-	preds     []PredRec
-	Pred      PredFunc
-	PredDelay func(key, node string) time.Duration // conc engine only
-	appSent   int64
-	nodeSent  int64
-	appSeen   atomic.Int64
-	nodeSeen  atomic.Int64
-	wake      chan struct{}
+	RMID            string
+	Partition       string // normalised name
+	mu              sync.Mutex
+	clock           atomic.Int64
+	trace           []*Ev
+	confirms        []Confirm
+	preds           []PredRec
+	Pred            PredFunc
+	PredDelay       func(key, node string) time.Duration // conc engine only
+	appSent         int64
+	nodeSent        int64
+	appSeen         atomic.Int64
+	nodeSeen        atomic.Int64
+	wake            chan struct{}
 	ContainerStates atomic.Int64
 	EventsSeen      atomic.Int64
-	fences map[string]chan struct{}
+	fences          map[string]chan struct{}
 	// OnRecv, if set, is called (outside the shim lock) for every received event: used by the conc engine.
 	OnRecv func(e *Ev)
 	// KeepPreds limits the predicate log (0 = unlimited)
@@ -290,7 +290,6 @@ func fromProto(r *si.Resource) res.R {
 	}
 	return out
 }
-
 
 // NewFence registers a fence id; the returned channel is closed when the core's answer for it arrives.
 func (s *Shim) NewFence(id string) chan struct{} {
